@@ -47,13 +47,16 @@ inductive Exc where
   | importError
   | attributeError
   | nameError
-  | other
+  /-- any other exception; `cls` numbers the builtin exception classes (0 = not known) -/
+  | other (cls : Nat)
   | outOfFuel
   | unknown
   deriving DecidableEq, Repr
 
 inductive Catch where
   | importError | moduleNotFound | attributeError | nameError | all
+  /-- a handler for the builtin exception class numbered `cls` (the translator lists every subclass) -/
+  | named (cls : Nat)
   deriving DecidableEq, Repr
 
 /-- what a name is bound to: an opaque object or a module -/
@@ -72,7 +75,9 @@ inductive Ev where
   | use (line : Nat) (root : Name) (path : List Name)
   | defs (rel : List Name) (other : List Name)
   | defMod (n : Name) (m : Mod)
-  | defAll (l : List Name)
+  /-- `__all__ = [...]` (a literal list of strings); each name comes with the id of the sub-module of that name
+  (which may not exist), for `from package import *` -/
+  | defAll (l : List (Name × Mod))
   | del_ (line : Nat) (n : Name)
   | ext (loads : List Mod)
   | raise_ (line : Nat) (exc : Exc)
@@ -173,7 +178,7 @@ structure State where
   /-- which module: field (m * nMN + n) of `valBits` bits (meaningful where `isMod` is set) -/
   vals : Nat
   /-- literal `__all__` lists -/
-  alls : List (Mod × List Name)
+  alls : List (Mod × List (Name × Mod))
 
 abbrev Res := State × Option Err
 
@@ -229,7 +234,7 @@ def State.bindObjs (g : Graph) (s : State) (m : Mod) (rel other : List Name) : S
            hi := Mat.orRow s.hi g.nHi m (maskOf g.nRel other 0),
            isMod := Mat.clearMask s.isMod g.nMN m (mlo &&& ones g.nMN) }
 
-def State.allOf (s : State) (m : Mod) : Option (List Name) :=
+def State.allOf (s : State) (m : Mod) : Option (List (Name × Mod)) :=
   match s.alls.find? (fun p => p.1 == m) with
   | some p => some p.2
   | none => none
@@ -314,6 +319,7 @@ def Catch.matches : Catch → Exc → Bool
   | .moduleNotFound, .moduleNotFound _ => true
   | .attributeError, .attributeError => true
   | .nameError, .nameError => true
+  | .named k, .other c => k != 0 && k == c
   | _, _ => false
 
 def handles (cs : List Catch) (e : Exc) : Bool := e.catchable && cs.any (·.matches e)
@@ -473,7 +479,12 @@ def execEv (g : Graph) : Nat → Mod → State → Ev → Res
         if s.bound g t g.allName then
           match s.allOf t with
           | some l =>
-            if s.bound g t g.pathName then (s, some ⟨.unknown, cur, line⟩) else copyAll g cur line t s l
+            -- `_handle_fromlist` with `__all__` of a package: names that are not attributes are tried as sub-modules
+            let r : Res := if s.bound g t g.pathName then
+                fromlist g run cur line t chain s (l.map fun p => (p.1, none, p.2)) else (s, none)
+            match r with
+            | (s, some err) => (s, some err)
+            | (s, none) => copyAll g cur line t s (l.map (·.1))
           | none => (s, some ⟨.unknown, cur, line⟩)
         else (copyPublic g cur t s, none)
     | .use line root path =>
